@@ -256,9 +256,16 @@ def monitor(case):
         return "EVSE %s has phase angle %r, not one of 30/-90/150" % (bad[0], phases[ids.index(bad[0])])
     if impl["uncovered"]:
         return "EVSE %s is not covered by any transformer (secondary) constraint" % impl["uncovered"][0]
-    if not impl["feasible"] or case.get("ambiguous"):
+    if case.get("ambiguous"):
         return None
     if any(v < 0 for r in X for v in r):
+        return None
+    # "every schedule the network reports feasible": the phase-aware report and the linear relaxation
+    if impl["feasible"]:
+        how = "feasible"
+    elif impl["feasible_lin"]:
+        how = "feasible (linear=True)"
+    else:
         return None
     trs, pods, panels = truth(site, ids, kw)
     slack = 1 + 1e-6
@@ -267,21 +274,23 @@ def monitor(case):
         for cap, mem in trs:
             p = SQ3 * 120 * sum(x[i] for i in mem)
             if p > 1000 * cap * slack:
-                return "feasible schedule draws %.1f W through a %.1f kW transformer (period %d)" % (p, cap, t)
+                return "schedule reported %s draws %.1f W through a %.1f kW transformer (period %d)" % (how, p, cap, t)
         for rating, mem in pods:
             s = sum(x[i] for i in mem)
             if s > rating * slack:
-                return "feasible schedule puts %.3f A on a %d A pod" % (s, rating)
+                return "schedule reported %s puts %.3f A on a %d A pod" % (how, s, rating)
         for rating, mem in panels:
             for k, cur in enumerate(line_currents(mem, phases, x)):
                 if cur > rating * slack:
-                    return "feasible schedule puts %.3f A on line %s of a %d A sub-panel" % (cur, "abc"[k], rating)
+                    return "schedule reported %s puts %.3f A on line %s of a %d A sub-panel" % (how, cur, "abc"[k], rating)
     return None
 
 
-def ascent(rng, site, basic, idx, budget_s):
-    """greedy ascent on sum x_i subject to the implementation's is_feasible"""
+def ascent(rng, site, basic, idx, budget_s, lin=None):
+    """greedy ascent on sum x_i subject to the implementation's is_feasible (phase-aware or linear)"""
     import numpy as np
+    if lin is None:
+        lin = rng.random() < 0.4
     net = get_net(site, basic, idx)
     ids = list(net.station_ids)
     n = len(ids)
@@ -314,7 +323,7 @@ def ascent(rng, site, basic, idx, budget_s):
         lo, hi = 0.0, 4000.0
         for _ in range(40):
             mid = (lo + hi) / 2
-            if net.is_feasible(np.minimum(mid * wa, mxa).reshape(n, 1)):
+            if net.is_feasible(np.minimum(mid * wa, mxa).reshape(n, 1), linear=lin):
                 lo = mid
             else:
                 hi = mid
@@ -325,7 +334,7 @@ def ascent(rng, site, basic, idx, budget_s):
             for i in rng.sample(act, len(act)):
                 y = x.copy()
                 y[i] = min(mx[i], y[i] + step)
-                if y[i] > x[i] and net.is_feasible(y.reshape(n, 1)):
+                if y[i] > x[i] and net.is_feasible(y.reshape(n, 1), linear=lin):
                     x, moved = y, True
             if not moved:
                 step /= 2
@@ -411,6 +420,18 @@ def search_(rng, budget_s, broken):
         r = monitor(c)
         if r:
             return dict(case=c["input"], impl=impl, why=r)
+    # every EVSE at one common rate (e.g. all eight Office001 EVSEs at 32 A)
+    prev = None
+    for site, basic, idx, kw in cfgs:
+        net = get_net(site, basic, idx)
+        for rate in (32.0, 24.0, 16.0, 8.0):
+            X = [[min(rate, float(m))] for m in net.max_pilot_signals]
+            impl = observe(site, basic, idx, X, 1)
+            c = dict(input=dict(site=site, basic=basic, idx=idx, X=X, T=1, before=prev), impl=impl)
+            prev = [site, basic, idx]
+            r = monitor(c)
+            if r:
+                return dict(case=c["input"], impl=impl, why=r)
     # then maximise the load on every configuration in turn (short ascents, several rounds)
     rounds = 0
     while time.time() - t0 < budget_s:
